@@ -208,6 +208,16 @@ PROPS = {
         trusted_base=COMMON_TB + ["Go race detector (runtime observation only)", "sync.Map and sync.WaitGroup assumed linearizable"],
         technique="Lean 4 theorems over a transition-system model of the cache protocol for all schedules, tied by regenerated protocol facts; -race runs as supporting observation",
     ),
+    "C25": dict(
+        claim="theorem int_element_roundtrip / int_array_roundtrip: for each of the 8 integer array kinds, each of the 7 numeric format settings and every element bit pattern of the kind's width (arrays of any length), the decoder model's reading (strconv.ParseInt/ParseUint with the base the header selects, base 0 for decimal, range check) of the text the encoder model writes (Go fmt verbs %v %b %o %x with zero-padded widths that count the minus sign) is the original element; digit lemmas for every base 2..16 with arbitrary zero padding. "
+              "The header and format tables and the routing of float kinds to the hex-float writer are re-extracted from cte/encoder_array.go and configuration/encoder.go on every run and proved equal to the model's (CE/Gen/CheckCte.lean). "
+              "Harness, exhaustive over all 11 kinds x 7 settings: arrays of boundary/random/negative/subnormal/special elements in whole and chunked form through the real encoder and decoder; encoder text = model text (CTE.ARRFMT), decoder reading = model reading (CTE.ARRPARSE), and the decoded elements must be the original ones",
+        note="partial: float kinds (decimal via %v / strconv shortest decimal, hex floats via strconv 'x') are external text codecs: decided by the oracle over all settings, not by a theorem; NaN elements keep only their kind (quiet/signalling) in CTE. Repaired in this session (fix a24be1c): float arrays under binary/octal/zero-filled-hex settings were unreadable",
+        level="proof", n_quick=7700, n_thorough=770000, shards=16,
+        lean_modules=["CE.Props.C25", "CE.Cte.Digits", "CE.Gen.CheckCte"],
+        rule="case i: kind i mod 11, setting (i div 11) mod 7, 0-17 elements from boundary pools (powers of two +-1, all-ones, sign boundary), random patterns, float specials (+-0, inf, NaN kinds, subnormals, bfloat16 subnormals); one third in chunked form; distinct by kind+setting+elements",
+        trusted_base=COMMON_TB + ["Go fmt verbs and strconv.ParseInt/ParseUint are modelled by hand (CE/Cte/ArrFmt.lean) and tied by the CTE.ARRFMT / CTE.ARRPARSE correspondence"],
+    ),
     # NEW-ENTRIES-ABOVE
 }
 
